@@ -49,6 +49,10 @@ def _case(draw, tier):
         gen.strong_case(1, 5, 6, qlo=3, qhi=4, unfals=True),
         gen.multiclause_case(5, nq=3),
         st.integers(0, 2**40).map(_search),
+        st.integers(0, 2**40).map(_search),
+        st.integers(0, 2**40).map(_search),
+        st.integers(0, 2**40).map(_search_lex),
+        st.integers(0, 2**40).map(_search_lex),
         st.integers(0, 2**40).map(_search_lex),
         gen.weak_case(1, 5, 6, qlo=3, qhi=4),
         rel.medium_case(8, 20 if q else 40, 20 if q else 40, nq=3),
@@ -81,7 +85,10 @@ def run_case(case, ctx):
     ctx.extra["engines_usable"] = eng
     ctx.extra["engines_unusable"] = engines.unusable()
     small = len(atoms) <= 6
-    if ctx.tier == "thorough" and small:
+    if case.get("searched") in ("lex!=W", "card-tie", "multi-v-diff-cont", "multi-f-diff-cont", "allpairs!=def",
+                                "tie-to-layer-0"):
+        chosen = [eng[case.get("rot", 0) % len(eng)]]   # tie-structure cases: z3 vs rc2 is the point, one engine suffices
+    elif ctx.tier == "thorough" and small:
         chosen = eng
     else:
         k = case.get("rot", 0)
